@@ -34,7 +34,7 @@ def pick(cases, thorough, seed):
 CRASHED = {}      # case -> description, filled by run_programs (a crash is reported by the caller as a violation)
 
 
-def run_programs(chk, cases, progs_by_case, name_prefix, prelude, deps, on_prelude=""):
+def run_programs(chk, cases, progs_by_case, name_prefix, prelude, deps, on_prelude="", off_deps=()):
     """builds feature-on and feature-off crates, runs them, returns the enriched event list and expansion records"""
     events = []
     dropped_all = {}
@@ -47,7 +47,7 @@ def run_programs(chk, cases, progs_by_case, name_prefix, prelude, deps, on_prelu
         if not mine:
             continue
         crate = vf.Crate(os.path.join(chk.work, name), name, features=(["unimock"] if feature else []),
-                         deps=deps + (["unimock"] if feature else []))
+                         deps=deps + (["unimock"] if feature else list(off_deps)))
         crate.prelude = prelude + (on_prelude if feature else "")
         desc = {}
         for c in mine:
